@@ -31,8 +31,8 @@ type JVal struct {
 	Members []*JVal
 }
 
-var jsonKeys = []string{"a", "b", "id", "name", "#obj", "#arr", "", "x y", "é", "key with \"quotes\"", "a", "0", "日本", "k\n", "\U0001F600", "true", "null"}
-var jsonStrs = []string{"", "a", "héllo", "tab\there", "quote\"", "back\\slash", " ", "\U0001F600", "line\nbreak", " ", "null", "1", "</x>", "ünï"}
+var jsonKeys = []string{"a", "b", "id", "name", "#obj", "#arr", "", "x y", "é", "key with \"quotes\"", "a", "0", "日本", "k\n", "\U0001F600", "true", "null", "{", "]", ":"}
+var jsonStrs = []string{"", "a", "héllo", "tab\there", "quote\"", "back\\slash", " ", "\U0001F600", "line\nbreak", " ", "null", "1", "</x>", "ünï", "{", "}", "[", "]", ",", ":", "{}", "[]"}
 var jsonNums = []string{"0", "-0", "1", "-1", "12", "1.5", "-2.25", "1e3", "1E-3", "1.0", "100", "0.1", "1e21", "1e-7", "123456789012345678", "2.5e+2", "9007199254740993", "4.9e-324", "1.7976931348623157e308", "0.30000000000000004", "3.0e0", "10", "1e100"}
 
 func genJVal(r *Rng, depth int, budget *int) *JVal {
